@@ -243,7 +243,7 @@ pub fn run(args: &Args, out: &mut Out) {
         out.stat(&format!("{{\"mode\":\"replay\",\"hist\":{}}}", hist.json()));
         return;
     }
-    let n = args.n.unwrap_or(if args.thorough() { 2000 } else { 300 });
+    let n = args.n.unwrap_or(if args.thorough() { 3500 } else { 300 });
     let mut rng = Rng::new(args.seed);
     for _ in 0..n {
         let seed = rng.next() >> 16;
@@ -672,7 +672,7 @@ fn run_wide_line(f: &[&str], out: &mut Out, hist: &mut Hist) {
 }
 
 fn generate_wide(args: &Args, out: &mut Out, hist: &mut Hist) {
-    let n = args.n.unwrap_or(if args.thorough() { 3000 } else { 600 });
+    let n = args.n.unwrap_or(if args.thorough() { 6000 } else { 600 });
     let mut rng = Rng::new(args.seed ^ 0x17_17);
     for i in 0..n {
         let mut prng = rng.fork();
